@@ -706,7 +706,11 @@ func GenKPlanC18(r *core.Rng) *KPlan {
 		if r.Chance(1, 2) {
 			shape |= uint32(r.Intn(8)) << 5 // what the caller left in Header.Len
 		}
-		return KOp{K: kSendRaw, A: uint32(ln), B: flags, C: typ, D: int64(pid), E: shape}
+		d := int64(pid)
+		if r.Chance(1, 10) {
+			d = ownPidSentinel // the caller's own process id, which is not this socket's port id
+		}
+		return KOp{K: kSendRaw, A: uint32(ln), B: flags, C: typ, D: d, E: shape}
 	}
 	recvOp := func() KOp {
 		ln := core.Pick(r, r.Intn(65), r.Intn(65), 0, 15, 16, 17, 20, r.Intn(2000), 8986)
